@@ -111,9 +111,16 @@ def analyse_key_fn(ctx, inst, kf):
                 if t_["k"] == "call" and t_["args"]:
                     n_ = len(body.blocks[call[2]]["stmts"])
                     sel_ = []
-                    for reg in (ordering["T"], ordering["F"]):
+                    regs_ = (ordering["T"], ordering["F"])
+                    for ri_, reg in enumerate(regs_):
                         rr = "|".join(sorted(ctx.roots(P.val_operand_in(kf, (call[2], n_), t_["args"][0], reg))))
                         m_ = re.match(r"^%s\[(\d)\]$" % re.escape(P_(kf, 0)), rr)
+                        if not m_:
+                            # an `if` without `else` (swap in place): the edge that skips the swap has no definition of its
+                            # own — what reaches the use along it is whatever was not defined on the other edge
+                            comp_ = set(range(len(body.blocks))) - set(regs_[1 - ri_])
+                            rr = "|".join(sorted(ctx.roots(P.val_operand_in(kf, (call[2], n_), t_["args"][0], comp_))))
+                            m_ = re.match(r"^%s\[(\d)\]$" % re.escape(P_(kf, 0)), rr)
                         sel_.append(int(m_.group(1)) if m_ else None)
                     if sel_ == [ordering["eA"], ordering["eB"]]:
                         return ("sorted", 0)      # the smaller key on both edges
@@ -374,7 +381,7 @@ def _run(ctx):
             continue
         if len(kr) == 1 and list(kr)[0].endswith(".0"):
             from . import c17 as _c17
-            if list(kr)[0][:-2] in _c17.raw_scan_items(ctx, fn):
+            if list(kr)[0][:-2] in _c17.raw_scan_items(ctx, fn, any_filter=True):
                 r1.site("%s %s keyed by the scanned entry's own key (unbounded PAIRS scan)" % (where, op))
                 continue
         if len(kr) != 1 or not list(kr)[0].startswith(KEY):
@@ -682,7 +689,9 @@ def _run(ctx):
                 a, b_ = b_, a
                 kind = {"lt": "gt", "le": "ge"}[kind]
             ra, rb = set(ctx.roots(a)), set(ctx.roots(b_))
-            if ra == {P_(cp, cr_i)} and len(rb) == 1 and re.match(r"^C:bignumber::(\w+::)*Decimal256::one@", list(rb)[0]):
+            # the explicit rate, or the rate the pair is really created with (`commission_rate.unwrap_or(default)`)
+            is_rate = ra == {P_(cp, cr_i)} or (len(ra) == 1 and list(ra)[0].startswith("or(%s;" % P_(cp, cr_i)))
+            if is_rate and len(rb) == 1 and re.match(r"^C:bignumber::(\w+::)*Decimal256::one@", list(rb)[0]):
                 found = True
                 if kind != "gt":
                     r7.fail("C16.R7:boundary", cp.path, common.span_of_block_term(cp, g.b), "commission rate of exactly 1 is rejected (>=), the stated bound is (0..=1)")
